@@ -169,6 +169,21 @@ func execRoutes(e *env, op *Op, out *Outcome) {
 	} else if want, got := normalize(m0.Out+S.Out+mStart+"|tail"+mEnd), normalize(M.Out); want != got {
 		fail("route-differs-from-S", "safeformat", fmt.Sprintf("Print on the SafePrinter inside SafeFormat after %q: got %q want %q", clip(m0.Out), clip(got), clip(want)))
 	}
+	e.yield(ySession)
+
+	// ---- the same, with the SafeFormatter printed under Safe(): the nested
+	// printer starts without override, so the argument list still prints as
+	// it does through Sprint; the method's own unsafe writes become safe
+	s0op := Op{K: "sprint", A: []Val{{K: "safe", V: []Val{{K: "safefmt", ID: 7003, P: withDst()}}}}}
+	s0 := e.execOp(&s0op)
+	ssop := Op{K: "sprint", A: []Val{{K: "safe", V: []Val{{K: "safefmt", ID: 7004, P: withDst(prStep, Step{A: "us", S: "|tail"})}}}}}
+	SS := e.execOp(&ssop)
+	count("safeformat-under-Safe", "-")
+	if SS.Panic != "" || s0.Panic != "" {
+		fail("call-panicked", "safeformat-under-Safe", SS.Panic+s0.Panic)
+	} else if want, got := normalize(s0.Out+S.Out+"|tail"), normalize(SS.Out); want != got {
+		fail("route-differs-from-S", "safeformat-under-Safe", fmt.Sprintf("Print on the SafePrinter inside SafeFormat of a Safe()-wrapped value after %q: got %q want %q", clip(s0.Out), clip(got), clip(want)))
+	}
 }
 
 // opC16 generates one routes op.
